@@ -1,7 +1,9 @@
 """Protocol contracts of the seven component kinds MibCompiler.compile talks to (DESIGN 3.2).
 
 Each call picks its outcome adversarially (ctx.choose): a normal return with unconstrained payload,
-or one of the package errors the protocol allows.  Ghost maps record what happened so that
+or one of the package errors the protocol allows.  "Another package error" is raised as the base class
+PySmiError itself: the least specific object a handler can be offered, so a handler narrowed to a
+subclass lets it escape.  Ghost maps record what happened so that
 postconditions of ``compile`` can speak about effects:
 
   fetch_n[name@src]   number of getData(name) calls made on source src
@@ -104,7 +106,7 @@ def reader_getData(it, comp, args, kwargs, line):
         gset(ctx, 'fetch_res', key, lift('notfound'))
         raise_pkg(it, 'PySmiReaderFileNotFoundError', line)
     gset(ctx, 'fetch_res', key, lift('error'))
-    raise_pkg(it, 'PySmiReaderError', line)
+    raise_pkg(it, 'PySmiError', line)
 
 
 def parser_parse(it, comp, args, kwargs, line):
@@ -114,7 +116,7 @@ def parser_parse(it, comp, args, kwargs, line):
         trees = VList(seq=ctx.fresh(pv.PVSeq, 'trees'))     # any number of modules, zero included
         ctx.ghost['h_empty'] = hist_or(ctx, 'h_empty', z3.Length(trees.seq) == 0)
         return trees
-    raise_pkg(it, 'PySmiSyntaxError', line, lineno=it.fresh_int('lineno'))
+    raise_pkg(it, 'PySmiError', line)
 
 
 def symbolgen_genCode(it, comp, args, kwargs, line):
@@ -136,7 +138,7 @@ def symbolgen_genCode(it, comp, args, kwargs, line):
         mi.fields['revision'] = it.fresh_any('rev')
         mi.fields['oid'] = None
         return (mi, it.fresh_any('symtab'))
-    raise_pkg(it, 'PySmiSemanticError', line)
+    raise_pkg(it, 'PySmiError', line)
 
 
 def codegen_genCode(it, comp, args, kwargs, line):
@@ -165,7 +167,7 @@ def codegen_genCode(it, comp, args, kwargs, line):
         gset(ctx, 'gen_info', m, lift(mi))
         ctx.cover('codegen.ok')
         return (mi, data)
-    raise_pkg(it, 'PySmiCodegenError', line)
+    raise_pkg(it, 'PySmiError', line)
 
 
 def searcher_fileExists(it, comp, args, kwargs, line):
@@ -186,7 +188,7 @@ def searcher_fileExists(it, comp, args, kwargs, line):
         raise_pkg(it, 'PySmiFileNotFoundError', line)
     if d == 2:
         raise_pkg(it, 'PySmiFileNotModifiedError', line)
-    raise_pkg(it, 'PySmiSearcherError', line)
+    raise_pkg(it, 'PySmiError', line)
 
 
 def borrower_getData(it, comp, args, kwargs, line):
@@ -206,7 +208,7 @@ def borrower_getData(it, comp, args, kwargs, line):
         ctx.cover('borrower.ok')
         return (mk_fileinfo(it, 'bfi'), data)
     gset(ctx, 'borrow_res', key, lift('error'))
-    raise_pkg(it, 'PySmiFileNotFoundError', line)
+    raise_pkg(it, 'PySmiError', line)
 
 
 def writer_putData(it, comp, args, kwargs, line):
@@ -225,7 +227,7 @@ def writer_putData(it, comp, args, kwargs, line):
         ctx.cover('writer.ok')
         return None
     gset(ctx, 'put_failed', kenc(name), lift(True))
-    raise_pkg(it, 'PySmiWriterError', line)
+    raise_pkg(it, 'PySmiError', line)
 
 
 def writer_getData(it, comp, args, kwargs, line):
